@@ -45,8 +45,11 @@ type world struct {
 	hadB       map[string]bool // the key's current version was written while >= R members were present and no member left since
 	sinceLeave map[string]bool // the key was written after the last leave: its copy counts are asserted ("after joins")
 	leaves     int
-	crashes    int // members stopped abruptly at a step of a fragment move
-	unsettled  bool // a member was lost in the middle of a hand-over and the cluster has not stabilised since: reads are recorded, not judged
+	crashes    int                 // members stopped abruptly at a step of a fragment move
+	forgot     map[string]bool     // debug: keys no longer asserted
+	dbg        map[string][]string // debug: per key, where its copies were at each phase
+	lastPut    map[string]string   // debug: last acknowledged operation per key ("" = delete)
+	unsettled  bool                // a member was lost in the middle of a hand-over and the cluster has not stabilised since: reads are recorded, not judged
 	dms        map[int]olric.DMap
 	fragOp     bool // an operation was issued while a partition had a previous owner holding data
 	disturbed  int  // operations that ended in a transport error (membership was not as stable as assumed)
@@ -187,6 +190,10 @@ func (w *world) ops(n int, phase string) {
 			if err == nil {
 				w.hadB[k] = len(live) >= w.R
 				w.sinceLeave[k] = true
+				if w.lastPut == nil {
+					w.lastPut = map[string]string{}
+				}
+				w.lastPut[k] = v
 			}
 		} else {
 			err := guarded(func() error { _, e := d.Delete(ctx, k); return e })
@@ -197,6 +204,9 @@ func (w *world) ops(n int, phase string) {
 				w.disturbed++
 			}
 			w.w.Emit(trace.Ev{"t": "op", "op": "del", "k": k, "v": "", "ret": classify(err), "indeterminate": transport(err), "via": m.Index, "phase": phase})
+			if w.lastPut != nil {
+				w.lastPut[k] = ""
+			}
 		}
 	}
 }
@@ -260,6 +270,23 @@ func (w *world) reapExpired(ks []string, deadline time.Time, phase string) {
 
 func (w *world) readAll(phase string) {
 	ctx := context.Background()
+	if os.Getenv("VERIF_DEBUG_LOST") != "" {
+		if w.dbg == nil {
+			w.dbg = map[string][]string{}
+		}
+		tab := w.c.Live()[0].Table(w.c.Opts.Partitions)
+		for _, k := range w.keys {
+			line := "[" + phase + "]"
+			for _, x := range w.c.Live() {
+				_, p := x.V.DMap.VerifEntry(w.dm, k, partitions.PRIMARY)
+				_, b := x.V.DMap.VerifEntry(w.dm, k, partitions.BACKUP)
+				line += fmt.Sprintf(" m%d(p=%v,b=%v)", x.Index, p, b)
+			}
+			_, part := w.c.OwnerOf(w.c.Live()[0], w.dm, k)
+			line += fmt.Sprintf(" part=%d owners=%v backups=%v", part, tab.Owners[part], tab.Backups[part])
+			w.dbg[k] = append(w.dbg[k], line)
+		}
+	}
 	if dk := os.Getenv("VERIF_DEBUG_KEY"); dk != "" {
 		line := fmt.Sprintf("DEBUG %s [%s]:", dk, phase)
 		for _, m := range w.c.Live() {
@@ -293,6 +320,9 @@ func (w *world) readAll(phase string) {
 				ret = classify(err)
 			}
 			w.evals++
+			if os.Getenv("VERIF_DEBUG_LOST") != "" && ret == "notfound" && !w.unsettled && w.lastPut[k] != "" && !w.forgot[k] {
+				fmt.Printf("DEBUGLOST %s [%s] from m%d last=%s\n  %s\n", k, phase, m.Index, w.lastPut[k], strings.Join(w.dbg[k], "\n  "))
+			}
 			w.w.Emit(trace.Ev{"t": "read", "k": k, "from": m.Index, "v": v, "ret": ret, "phase": phase, "settled": !w.unsettled})
 		}
 	}
@@ -357,6 +387,10 @@ func (w *world) holders(k string) int {
 func (w *world) beforeLoss(present map[string]bool) {
 	for _, k := range w.keys {
 		if h := w.holders(k); h > 0 && h < w.R {
+			if w.forgot == nil {
+				w.forgot = map[string]bool{}
+			}
+			w.forgot[k] = true
 			w.w.Emit(trace.Ev{"t": "forget", "k": k, "why": fmt.Sprintf("newest version on %d members, R=%d", h, w.R)})
 		}
 	}
@@ -433,11 +467,11 @@ func TestC03(t *testing.T) {
 				R := 1 + rng.Intn(2)
 				n0 := 1 + rng.Intn(3)
 				T := []int{512, 512, 0}[rng.Intn(3)]
-				c, err := cluster.Start(cluster.Options{Replicas: R, Partitions: 7, TableSize: T, Manual: true, Housekeeping: hk(T)}, n0)
+				c, err := cluster.Start(cluster.Options{Replicas: R, Partitions: 7, TableSize: T, Manual: s%4 != 3, Housekeeping: hk(T)}, n0) // every fourth scenario runs with the members' own push and balancer timers
 				if err != nil {
 					panic(err)
 				}
-				label := fmt.Sprintf("R=%d start=%d T=%d", R, n0, T)
+				label := fmt.Sprintf("R=%d start=%d T=%d manual=%v", R, n0, T, s%4 != 3)
 				w := &world{c: c, w: pw, rng: rng, dm: "reb", R: R, hadB: map[string]bool{}, sinceLeave: map[string]bool{}, dms: map[int]olric.DMap{}}
 				for i := 0; i < 24; i++ {
 					w.keys = append(w.keys, fmt.Sprintf("k%d", i))
@@ -530,6 +564,12 @@ func TestC03(t *testing.T) {
 								if !w.waitViews() {
 									ok = false
 									break
+								}
+								// how many copies of each key the surviving members hold (white box): a key whose primary and backup
+								// copy both sat on the crashed member is known finding D26, told apart by this record
+								for _, k := range w.keys {
+									p, b := w.copies(k)
+									w.w.Emit(trace.Ev{"t": "survivors", "k": k, "n": p + b, "phase": "after a crash at " + point})
 								}
 								w.readAll("after a crash at " + point)
 							} else {
@@ -645,7 +685,7 @@ func TestC02(t *testing.T) {
 					N = 5
 				}
 				rr := rng.Intn(2) == 0
-				c, err := cluster.Start(cluster.Options{Replicas: R, Partitions: 13, ReadRepair: rr, Manual: true}, N)
+				c, err := cluster.Start(cluster.Options{Replicas: R, Partitions: 13, ReadRepair: rr, Manual: s%4 != 3}, N)
 				if err != nil {
 					panic(err)
 				}
